@@ -1,6 +1,7 @@
 """C15 - operators lift uniformly over functions, streams, patterns, lists, operands."""
 
 import ast
+import re
 
 from ..loader import norm, full, walk_local, walk_local_ordered
 from .. import util as U
@@ -167,6 +168,170 @@ def rule_order(ctx, rid='C15.order', families=None, least=10):
     ctx.require(n >= least, rid, f'only {n} selector applications found')
 
 
+def _const(node, consts):
+    """float value of a constant expression over literals and module constants, or None"""
+    import math
+    if isinstance(node, ast.Constant) and isinstance(node.value, (int, float)) and not isinstance(node.value, bool):
+        return float(node.value)
+    if isinstance(node, ast.Name) and node.id in consts:
+        return consts[node.id]
+    if isinstance(node, ast.Attribute) and norm(node) == 'math.e':
+        return math.e
+    if isinstance(node, ast.UnaryOp) and isinstance(node.op, ast.USub):
+        v = _const(node.operand, consts)
+        return None if v is None else -v
+    if isinstance(node, ast.BinOp):
+        a, b = _const(node.left, consts), _const(node.right, consts)
+        if a is None or b is None:
+            return None
+        if isinstance(node.op, ast.Add):
+            return a + b
+        if isinstance(node.op, ast.Sub):
+            return a - b
+        if isinstance(node.op, ast.Mult):
+            return a * b
+        if isinstance(node.op, ast.Div) and b != 0:
+            return a / b
+    return None
+
+
+def op_chain(expr, param, consts):
+    """Write `expr` as a chain of invertible steps applied to `param`, innermost first: ('add', c) ('mul', c) ('log', base)
+    ('exp', base).  None when the parameter does not occur exactly once or a step is not of these kinds."""
+    import math
+    if isinstance(expr, ast.Name) and expr.id == param:
+        return []
+    if isinstance(expr, ast.BinOp):
+        lc, rc = _const(expr.left, consts), _const(expr.right, consts)
+        if rc is not None and lc is None:
+            inner = op_chain(expr.left, param, consts)
+            if inner is None:
+                return None
+            if isinstance(expr.op, ast.Add):
+                return inner + [('add', rc)]
+            if isinstance(expr.op, ast.Sub):
+                return inner + [('add', -rc)]
+            if isinstance(expr.op, ast.Mult):
+                return inner + [('mul', rc)]
+            if isinstance(expr.op, ast.Div) and rc != 0:
+                return inner + [('mul', 1.0 / rc)]
+            return None
+        if lc is not None and rc is None:
+            inner = op_chain(expr.right, param, consts)
+            if inner is None:
+                return None
+            if isinstance(expr.op, ast.Add):
+                return inner + [('add', lc)]
+            if isinstance(expr.op, ast.Mult):
+                return inner + [('mul', lc)]
+            return None
+        return None
+    if isinstance(expr, ast.Call):
+        fn = norm(expr.func).split('.')[-1]
+        if fn in ('log2', 'log10', 'log') and len(expr.args) == 1:
+            inner = op_chain(expr.args[0], param, consts)
+            return None if inner is None else inner + [('log', {'log2': 2.0, 'log10': 10.0, 'log': math.e}[fn])]
+        if fn == 'exp' and len(expr.args) == 1:
+            inner = op_chain(expr.args[0], param, consts)
+            return None if inner is None else inner + [('exp', math.e)]
+        if fn == 'pow' and len(expr.args) == 2:
+            base = _const(expr.args[0], consts)
+            if base is not None and base > 0:
+                inner = op_chain(expr.args[1], param, consts)
+                return None if inner is None else inner + [('exp', base)]
+        return None
+    return None
+
+
+def _merge(chain):
+    out = []
+    for k, c in chain:
+        if out and out[-1][0] == k and k in ('add', 'mul'):
+            pk, pc = out.pop()
+            c = pc + c if k == 'add' else pc * c
+        if (k == 'add' and abs(c) < 1e-15) or (k == 'mul' and abs(c - 1.0) < 1e-15):
+            continue
+        out.append((k, c))
+    return out
+
+
+def _inverse(chain):
+    inv = {'add': lambda c: ('add', -c), 'mul': lambda c: ('mul', 1.0 / c), 'log': lambda b: ('exp', b), 'exp': lambda b: ('log', b)}
+    return [inv[k](c) for k, c in reversed(chain)]
+
+
+def _close(a, b):
+    return len(a) == len(b) and all(x[0] == y[0] and abs(x[1] - y[1]) <= 1e-6 * max(1.0, abs(x[1]), abs(y[1])) for x, y in zip(a, b))
+
+
+INVERSE_PAIRS = [('midicps', 'cpsmidi'), ('midiratio', 'ratiomidi'), ('octcps', 'cpsoct'), ('ampdb', 'dbamp')]
+LAW_KERNELS = ('wrap', 'fold', 'clip', 'round', 'roundup', 'trunc', 'mod', 'wrap2', 'fold2', 'clip2')
+
+
+def rule_laws(ctx):
+    ctx.rule('C15.laws', 'the four conversion pairs are exact inverses as chains of add/mul/log/exp steps (g is f\'s chain reversed with '
+                         'every step inverted); the range/quantum kernels never narrow a bound or quantum with int(), and an integer '
+                         'fast path is taken only when every parameter it reads is type-tested to be an int')
+    m = ctx.repo.module('sc3.base.builtins')
+    consts = {}
+    for s in m.tree.body:
+        if isinstance(s, ast.Assign) and len(s.targets) == 1 and isinstance(s.targets[0], ast.Name):
+            v = _const(s.value, consts)
+            if v is not None:
+                consts[s.targets[0].id] = v
+    for fa, fb in INVERSE_PAIRS:
+        f, g = m.functions.get(fa), m.functions.get(fb)
+        ctx.require(f is not None and g is not None, 'C15.laws', f'{fa}/{fb} vanished')
+        chains = []
+        for k in (f, g):
+            body = U.body_nodoc(k.node)
+            ch = op_chain(body[-1].value, k.params[0], consts) if len(body) == 1 and isinstance(body[-1], ast.Return) else None
+            chains.append(None if ch is None else _merge(ch))
+        ok = chains[0] is not None and chains[1] is not None and _close(_merge(_inverse(chains[0])), chains[1])
+        ctx.ob('C15.laws', f'{m.name}:{fa}<->{fb}:inverse', ok,
+               f'{fb} must undo {fa} step by step; {fa} = {chains[0]}, {fb} = {chains[1]}, expected {fb} = '
+               f'{None if chains[0] is None else _merge(_inverse(chains[0]))}', g.node, m)
+    n = 0
+    for kn in LAW_KERNELS:
+        k = m.functions.get(kn)
+        ctx.require(k is not None, 'C15.laws', f'kernel {kn} vanished')
+        params = set(k.params)
+        narrowed = [norm(c) for c in U.calls(k.node) if norm(c.func) == 'int' and len(c.args) == 1 and isinstance(c.args[0], ast.Name)
+                    and c.args[0].id in params]
+        ctx.ob('C15.laws', f'{k.fq}:bounds-unmodified', not narrowed,
+               f'{kn} narrows {narrowed}: with a float bound/quantum the result is computed for a different interval or grid than the one asked for', k.node, m)
+        n += 1
+        for t in walk_local(k.node):
+            if not isinstance(t, ast.If):
+                continue
+            tested = set()
+            for cj in U.conjuncts(t.test):
+                mm = re.fullmatch(r'type\((\w+)\) is int', norm(cj))
+                if mm:
+                    tested.add(mm.group(1))
+            if not tested:
+                continue
+            read = {x.id for b in t.body for x in ast.walk(b) if isinstance(x, ast.Name) and isinstance(x.ctx, ast.Load) and x.id in params}
+            n += 1
+            ctx.ob('C15.laws', f'{k.fq}:int-path[{norm(t.test)}]', read <= tested,
+                   f'the integer path of {kn} reads {sorted(read)} but only {sorted(tested)} are tested to be ints: a float among the others '
+                   f'is combined with the integer formula (range + 1, integer division)', t, m)
+    ctx.require(n >= 12, 'C15.laws', f'only {n} law obligations')
+    # operand evaluation guards of the function compositions agree
+    fm = ctx.repo.module('sc3.base.functions')
+    for cname in ('BinopFunction', 'NaropFunction'):
+        ci = fm.classes[cname]
+        c = ci.methods['__call__']
+        guards = []
+        for x in ast.walk(c.node):
+            if isinstance(x, ast.IfExp):
+                guards.append(norm(x.test))
+        ok = bool(guards) and all(re.fullmatch(r'callable\(.+\)|isinstance\(\w+(\.\w+)?, AbstractFunction\)', g_) for g_ in guards)
+        ctx.ob('C15.laws', f'{c.fq}:operand-evaluated', ok,
+               f'{cname} decides with {guards} whether an operand is evaluated: every object the hooks can build (any AbstractFunction) '
+               f'must be evaluated, not only one subclass', c.node, fm)
+
+
 def rule_wrap(ctx):
     ctx.rule('C15.wrap', 'scbuiltin.unop/binop/narop: left operand hook, then right operand reflected hook with swapped arguments, '
                          'then the kernel; the wrapper keeps the kernel __name__; every builtin used by an operator method has the '
@@ -214,10 +379,24 @@ def run(ctx):
     rule_refl(ctx)
     rule_hooks(ctx)
     rule_order(ctx)
+    rule_laws(ctx)
     rule_wrap(ctx)
 
 
 MUTANTS = [
+    dict(rule='C15.laws', name='(fix reverted) cpsoct offset inside the logarithm', file='sc3/base/builtins.py',
+         old="    return log2(freq * _ONE440TH) + 4.75\n", new="    return log2(freq * _ONE440TH + 4.75)\n"),
+    dict(rule='C15.laws', name='dbamp uses the factor of ampdb', file='sc3/base/builtins.py',
+         old="    return pow(10., db * .05)", new="    return pow(10., db * .5)"),
+    dict(rule='C15.laws', name='(fix reverted) wrap truncates float bounds for an int x', file='sc3/base/builtins.py',
+         old="    if type(x) is int and type(lo) is int and type(hi) is int:\n        return mod(x - lo, hi - lo + 1) + lo",
+         new="    if type(x) is int:\n        lo = int(lo)\n        hi = int(hi)\n        return mod(x - lo, hi - lo + 1) + lo"),
+    dict(rule='C15.laws', name='fold takes the integer path whatever the bounds are', file='sc3/base/builtins.py',
+         old="    if type(x) is int and type(lo) is int and type(hi) is int:\n        b = hi - lo", new="    if type(x) is int:\n        b = hi - lo"),
+    dict(rule='C15.laws', name='(fix reverted) round family truncates a float quantum', file='sc3/base/builtins.py', count=3,
+         old="    if type(x) is int and type(quant) is int:\n        if quant == 0:", new="    if type(x) is int:\n        quant = int(quant)\n        if quant == 0:"),
+    dict(rule='C15.laws', name='(fix reverted) NaropFunction evaluates only Function arguments', file='sc3/base/functions.py',
+         old="if isinstance(x, AbstractFunction)", new="if isinstance(x, Function)"),
     dict(rule='C15.order', name='Pbinop.__embed__ shortcut swaps operands for a number on the left (seed C15-b)', file='sc3/seq/pattern.py',
          old='        # NOTE: See BinaryOpXStream implementation options. Class is not\n        # defined.\n\n', new='        # NOTE: See BinaryOpXStream implementation options. Class is not\n        # defined.\n\n    def __embed__(self, inval=None):\n        if isinstance(self.b, (int, float)):\n            stream, number = stm.stream(self.a), self.b\n        elif isinstance(self.a, (int, float)):\n            stream, number = stm.stream(self.b), self.a\n        else:\n            return (yield from super().__embed__(inval))\n        try:\n            while True:\n                inval = yield self.selector(stream.next(inval), number)\n        except stm.StopStream:\n            return inval\n\n'),
     dict(rule='C15.order', name='Pnarop.__embed__ polls only pattern arguments, constants appended last (seed C13-b)', file='sc3/seq/pattern.py',
